@@ -144,5 +144,6 @@ void *sym_lookup(const char *name); /* generated table of library entry points *
 int sym_count(void);
 void *sym_at(int i, const char **name);
 const char *sym_name(void *addr);
+void note_called(const char *name);
 
 #endif
